@@ -9,6 +9,7 @@ package drivers
 // is validated against spec/TraceMux.tla by TLC.
 
 import (
+	"runtime"
 	"bufio"
 	"encoding/json"
 	"fmt"
@@ -66,6 +67,15 @@ type MuxScenario struct {
 	Holds   []MuxHold `json:"holds"`
 	NextIDs int       `json:"nextids"`
 	EndAt   int64     `json:"endat"`
+	// DownAt/DownSide: at this (virtual) time the driver cuts the connection under the yamux session
+	// from the given side: the peer process dying / the network going away
+	DownAt   int64  `json:"down_at,omitempty"`
+	DownSide string `json:"down_side,omitempty"`
+	// SpinID/SpinN: the first goroutine that reaches the slot lookup (mux.getstream, inside the broker's
+	// critical section) for this id yields the processor SpinN times there without blocking, so that
+	// whoever else wants the same slot gets to the critical section meanwhile (free mode)
+	SpinID uint32 `json:"spin_id,omitempty"`
+	SpinN  int    `json:"spin_n,omitempty"`
 	Script  []string  `json:"script"` // optional TLC-derived preference order of goroutine labels
 	// Bulk: after the connection is established the dialer waits BulkDelay ms, then writes BulkLen
 	// pattern bytes while the acceptor starts reading BulkReadDelay ms late (complete and in order?)
@@ -235,7 +245,15 @@ func runMuxScenario(t *testing.T, s MuxScenario, outDir string) map[string]inter
 	if ctl {
 		rec.SetGates(muxGates...)
 	}
-	plugin.VerifSetHook(rec.Hook)
+	var spun atomic.Bool
+	plugin.VerifSetHook(func(ev string, obj interface{}, a, b int64) {
+		rec.Hook(ev, obj, a, b)
+		if s.SpinID != 0 && ev == "mux.getstream" && uint32(a) == s.SpinID && spun.CompareAndSwap(false, true) {
+			for i := 0; i < s.SpinN; i++ {
+				runtime.Gosched()
+			}
+		}
+	})
 	defer plugin.VerifSetHook(nil)
 
 	dialIdx := map[string]int{}
@@ -392,6 +410,7 @@ func runMuxScenario(t *testing.T, s MuxScenario, outDir string) map[string]inter
 		return false
 	}
 	script := append([]string(nil), s.Script...)
+	downed := false
 
 	steps := 0
 	for {
@@ -427,6 +446,21 @@ func runMuxScenario(t *testing.T, s MuxScenario, outDir string) map[string]inter
 				continue
 			}
 			rel = append(rel, a)
+		}
+		if s.DownAt > 0 && !downed {
+			if now >= s.DownAt {
+				// every goroutine is blocked right now (synctest.Wait above): the line is logged and the
+				// connection cut before anybody can observe it
+				downed = true
+				rec.Log("session.down", s.DownSide, 0, 0, nil)
+				if s.DownSide == "P" {
+					c2.Close()
+				} else {
+					c1.Close()
+				}
+				continue
+			}
+			setNext(s.DownAt)
 		}
 		if now < s.EndAt {
 			setNext(s.EndAt)
